@@ -57,5 +57,5 @@ def run(ctx):
     csdo_trace.run(ctx, 500 if q else 15000, client=1)
     # next to every other service and timer of the node (product model CoFull)
     import full_check
-    full_check.run(ctx, 500 if q else 20000)
+    full_check.run(ctx, 500 if q else 6000)
 
